@@ -552,10 +552,9 @@ def step (d : Drv) (cmd : List Sexp) : Drv × String :=
     match d.rel? n with
     | none => (d, "bad-ref")
     | some r =>
-      match r with
-      | .mat oid .. | .transfer oid .. | .select oid .. =>
-        if d.hasPay oid then (d, errLine .type)
-        else
+      match attachTarget d.hasPay r with
+      | .error e => (d, errLine e)
+      | .ok oid =>
           match r.engine.kind with
           | .iter =>
             ({ d with st := { d.st with payloads := (oid, .seq (sem d.sigma r)) :: d.st.payloads } }, "ok attached")
@@ -565,7 +564,6 @@ def step (d : Drv) (cmd : List Sexp) : Drv × String :=
             let pay : SqlPayload := { frm := .table name 0 idx, avail := r.columns.map (fun t => (t, SqlExpr.col name t)) }
             ({ d with sqlSt := { d.sqlSt with tables := d.sqlSt.tables ++ [sem d.sigma r],
                                               payloads := (oid, pay) :: d.sqlSt.payloads } }, "ok attached")
-      | _ => (d, errLine .type)
   -- (process rN rM): Processor.process
   | [atom "process", atom n, atom tn] =>
     match d.rel? tn with
